@@ -92,7 +92,7 @@ def header_case(ctx, rng):
                   stream_name=rng.choice(STREAM_NAMES))
     integ = rng.choice(["generic", "rdflib"])
     cfg = {"integration": integ, "physical": phys, "entry": "stream_frames_gen", "frame_size": 250, "preset": preset,
-           "delimited": delimited, "logical": logical, "params_build": rng.choice(["direct", "direct", "version1", "replace"]), **params}
+           "delimited": delimited, "logical": logical, "params_build": rng.choice(["direct", "direct", "version1", "replace", "positional"]), **params}
     tr = gen.rng_for("transport", sorted((k, repr(v)) for k, v in cfg.items())).random()
     if tr < .24:
         cfg["options_transport"] = ["copy", "deepcopy", "pickle"][int(tr / .08)]
@@ -513,6 +513,30 @@ def strict_matrix(ctx):
                         ctx.case(("strict", phys, logical, integ, entry, strict), True,
                                  sample={"part": "strict-matrix", "physical": phys, "logical": logical, "parser": f"{integ}:{entry}",
                                          "strict": strict, "outcome": got})
+            # the load-everything entry points (no strict flag there): what ends up in the caller's store / sink
+            import rdflib
+            for integ, entry in (("generic", "to_graph"), ("rdflib", "to_graph"), ("rdflib", "Graph.parse"), ("rdflib", "Dataset.parse")):
+                if entry == "Graph.parse" and phys != 1:
+                    continue
+                try:
+                    if entry == "to_graph":
+                        evs = sorted((e for e in T.norm_events(pj.parse(integ, "to_graph", data)) if e[0] == "stmt"), key=repr)
+                    else:
+                        store = rdflib.Graph(bind_namespaces="none") if entry == "Graph.parse" else rdflib.Dataset(default_union=False)
+                        store.parse(data=data, format="jelly")
+                        evs = sorted(T.norm_events([("stmt", x) for x in T.rdflib_store_statements(store)]), key=repr)
+                    got = "ok"
+                except Exception as e:  # noqa: BLE001
+                    got, evs = type(e).__name__, None
+                ctx.observe("strict-matrix-cells")
+                if got != "ok":
+                    ctx.violation({"clause": "non-strict-rejects", "cell": [phys, logical, integ, entry, False],
+                                   "summary": f"{integ} {entry}, logical {logical}: {got}"})
+                else:
+                    results.setdefault((integ, entry), {})[logical] = evs
+                    if not evs:
+                        ctx.violation({"clause": "logical-type-influences-parse", "cell": [phys, logical, integ, entry, False],
+                                       "summary": f"{integ} {entry}, physical {phys}, logical {logical}: the caller's store is EMPTY after the parse"})
         for key, by_logical in results.items():
             vals = list(by_logical.values())
             if any(v != vals[0] for v in vals):
